@@ -59,7 +59,7 @@ with open(os.path.join(ROOT, "seeded", "README.md"), "w") as f:
     f.write("# Seeded changes\n\nEach directory holds one independently written change to lakiw/pcfg_cracker that breaks a property while the\n"
             "75 pinned tests still pass (`patch.diff`), its demonstration (`demo.py`: exit 0 on the unchanged tree, non-zero with the\n"
             "change) and `meta.json` (what it needs to manifest, what was run, which checks report it). None of them is ever\n"
-            "committed to /repo. Ids -1/-2 are the first round, -3/-4 the second, -5/-6 the third, -7/-8 the fourth, -9/-10 the fifth (a fresh set of\n"
+            "committed to /repo. Ids -1/-2 are the first round, -3/-4 the second, -5/-6 the third, -7/-8 the fourth, -9/-10 the fifth, -11/-12 the sixth (a fresh set of\n"
             "sub-agents each time; DESIGN.md section 11 says what each round asked for).\n\n"
             "| id | property | change | needs | reported by | missed at first by |\n|---|---|---|---|---|---|\n")
     for sid, prop, summ, needs, caught, missed in rows:
